@@ -17,6 +17,7 @@ def run(ctx):
     RT.shared_generator(ctx, "R03.d")
     RT.grams_from_whole_words(ctx, "R03.d")
     RT.candidate_cap(ctx, "R03.e", minimum=1)
+    RT.every_posting_counted(ctx, "R03.e")
     RT.unfinished_prefix_clip(ctx, "R03.f")
     RK.class_predicates(ctx, "R03.g")
     RK.text_methods_use_chars(ctx, "R03.g")
